@@ -836,7 +836,7 @@ def module_state():
         result.append(dict(module=dmod, name=name, kind=objects[key]["kind"], rebound=objects[key]["rebound"],
                            writers=sorted(W), escapes=sorted(E), readers=sorted(R)))
     # ---- function caches, suspicious imports, mutable defaults, class-level objects
-    fcaches, imps, defaults, classobjs = [], [], [], []
+    fcaches, imps, defaults, classobjs, default_uses = [], [], [], [], []
     for mod, tree in trees.items():
         for n in ast.walk(tree):
             if isinstance(n, ast.Import):
@@ -854,9 +854,25 @@ def module_state():
             for n in ast.walk(fn):
                 if isinstance(n, (ast.FunctionDef, ast.AsyncFunctionDef, ast.Lambda)):
                     a = n.args
-                    for dflt in list(a.defaults) + [d for d in a.kw_defaults if d is not None]:
+                    pos = a.posonlyargs + a.args
+                    pairs = list(zip(pos[len(pos) - len(a.defaults):], a.defaults)) + \
+                        [(p_, d_) for p_, d_ in zip(a.kwonlyargs, a.kw_defaults) if d_ is not None]
+                    for prm, dflt in pairs:
                         if not _const_value(dflt) and not isinstance(dflt, (ast.Name, ast.Attribute)):
                             defaults.append((mod, q, ast.unparse(dflt)[:60]))
+                            # every use of the parameter that holds the default object: is it written, does it leave the function?
+                            units_here = dict(_units(tree))
+
+                            def resolver(fname, _u=units_here, _mod=mod):
+                                base = fname.split(".")[-1]
+                                if fname in _u:
+                                    return (fname, _u[fname], _mod)
+                                cands = [u for u in _u if u.split(".")[-1] == base and "." in fname and fname.split(".")[0] in ("self", "cls", u.split(".")[0])]
+                                return (cands[0], _u[cands[0]], _mod) if len(cands) == 1 else None
+                            scope = n if not isinstance(n, ast.Lambda) else ast.Expression(body=n.body)
+                            al = _alias_closure(scope, {prm.arg})
+                            w, e, _r = _classify_uses(scope, q, al, None, mod, 0, resolver)
+                            default_uses.append((mod, q, prm.arg, sorted(w), sorted(e)))
                 if isinstance(n, ast.Attribute) and isinstance(n.ctx, ast.Store) and isinstance(n.value, ast.Name) \
                         and n.value.id not in ("self", "cls"):
                     # attribute stored on a function / module / other object: f.cache = ...
@@ -971,7 +987,7 @@ def module_state():
                                                                                  for t in y.targets):
                                                 todo.append(y.value)
                 memos.append((mod, c.name, a, sorted(set(hand)), sorted(set(fill_in)), sorted(set(fill_txt)), sorted(reads - {a})))
-    return dict(objects=result, function_caches=sorted(fcaches), cache_imports=sorted(set(imps)), mutable_defaults=sorted(defaults),
+    return dict(objects=result, function_caches=sorted(fcaches), cache_imports=sorted(set(imps)), mutable_defaults=sorted(defaults), default_uses=sorted(default_uses),
                 class_objects=sorted(classobjs), global_rebinds=sorted(rebinds), nonlocals=sorted(nonlocals),
                 late_attrs=sorted(attrs), memos=sorted(memos), setters=sorted(setters))
 
@@ -1020,6 +1036,10 @@ def module_state_text() -> str:
     parts.append("def cacheImports : List (String × String) := " + _ll(st["cache_imports"], _lp) + "\n")
     parts.append("/-- default arguments that are not literal constants or names: `(module, function, text)` -/")
     parts.append("def mutableDefaults : List (String × String × String) := " + _ll(st["mutable_defaults"], _lp) + "\n")
+    parts.append("/-- what the function does with the parameter holding such a default object: `(module, function, parameter, writers, escapes)` "
+                 "(a write changes the default for every later call that omits the argument, and the caller's object when it is given) -/")
+    parts.append("def mutableDefaultUses : List (String × String × String × List (String × String) × List (String × String)) := [")
+    parts.append(",\n".join(f"  ({_ls(m)}, {_ls(q)}, {_ls(prm)}, {_ll(w, _lp)}, {_ll(e, _lp)})" for m, q, prm, w, e in st["default_uses"]) + "]\n")
     parts.append("/-- class-body bindings whose value is not a literal constant: `(module, Class.attr, kind)` -/")
     parts.append("def classObjects : List (String × String × String) := " + _ll(st["class_objects"], _lp) + "\n")
     parts.append("/-- `global` statements: `(module, function, name)` -/")
